@@ -120,32 +120,42 @@ def check_close_on_every_exit(check, an: Analysis, rule: str, receivers):
 
 
 def check_copy_iteration(check, an: Analysis, rule: str):
-    """loops that close or await children run over a copy of the list"""
-    COPIES = ('%s.copy()', 'list(%s)', '%s[:]', 'tuple(%s)')
+    """
+    the child lists are never walked *live* while children are closed or awaited (a child
+    that ends removes itself from the list, so every second one would be skipped): a walk
+    over the list itself -- not over a copy or a snapshot made from it -- neither closes
+    nor suspends; and the closing loops do close
+    """
     for name, attr in (('_close_children', 'self._children'),
                        ('_close_volatile', 'self._volatile_children'),
                        ('_await_children', 'self._children')):
         callee = an.callee(SCOPE, name)
         verdict, n_iter, bad, closes = True, 0, None, 0
         for path in an.paths(callee):
-            for index, event in enumerate(path.events):
-                if event.kind in ('iter-next', 'iter-end'):
-                    text = rules.value_text(path, index, event.node.iter)
-                    if '_children' not in text:
-                        continue
-                    n_iter += 1
-                    if text not in [c % attr for c in COPIES]:
+            for it in rules.iterations(path):
+                if '_children' not in it.source:
+                    continue
+                n_iter += 1
+                if it.source != attr:
+                    continue  # a copy: .copy(), [:], list(...), tuple(...)
+                for index, event in it.events():
+                    if is_suspension(event) or is_call_to(event, '__close__') or (
+                            event.kind in ('call', 'enter') and isinstance(event.node, ast.Call)
+                            and isinstance(event.node.func, ast.Attribute)
+                            and event.node.func.attr == '__close__'):
                         verdict = False
                         bad = bad or (path, index)
-                elif event.kind in ('call', 'enter') and isinstance(event.node, ast.Call) \
-                        and isinstance(event.node.func, ast.Attribute) and \
-                        event.node.func.attr == '__close__':
+            for event in path.events:
+                if event.kind in ('call', 'enter') and (is_call_to(event, '__close__') or (
+                        isinstance(event.node, ast.Call)
+                        and isinstance(event.node.func, ast.Attribute)
+                        and event.node.func.attr == '__close__')):
                     closes += 1
         check.instance(rule, '%s:iterates-copy' % name, verdict and n_iter > 0,
-                       where_fn(callee.fn), 'the loop runs over a copy of `%s`: children '
-                       'remove themselves while being closed/awaited (%d iteration events)'
-                       % (attr, n_iter), path=rules.path_lines(*bad) if bad else None,
-                       analysed=n_iter)
+                       where_fn(callee.fn), 'no child is closed or awaited inside a walk over '
+                       'the live `%s` (children remove themselves): copies and snapshots '
+                       'are walked instead (%d iterations on paths)' % (attr, n_iter),
+                       path=rules.path_lines(*bad) if bad else None, analysed=n_iter)
         if name != '_await_children':
             check.instance(rule, '%s:closes-each' % name, closes > 0, where_fn(callee.fn),
                            'each child of the list is closed')
